@@ -30,6 +30,35 @@ SEED = int(os.environ.get("VERIF_SEED", "1") or "1")
 _scratch_root = None
 
 
+class CodeCrash(Exception):
+    """the code under test panicked / was aborted by the Go runtime (deadlock) inside a driver: an observed outcome, not a machinery problem"""
+
+    def __init__(self, engine, msg, payload=None):
+        Exception.__init__(self, msg)
+        self.engine, self.msg, self.payload = engine, msg, payload or {}
+
+
+def go_crash_in_library(stderr_text):
+    """If a Go process died from a panic / fatal error whose first non-runtime frame is inside the library under test, return a short
+    normalized description; None when it died elsewhere (a harness bug stays a machinery problem)."""
+    import re
+    m = re.search(r"^(panic: .*|fatal error: .*)$", stderr_text, re.M)
+    if not m:
+        return None
+    head = m.group(1).strip()
+    for ln in stderr_text[m.end():].splitlines():
+        ln = ln.strip()
+        if not ln or ln.startswith(("goroutine ", "[", "/", "created by", "panic(", "runtime.", "sync.", "internal/", "reflect.", "testing.", "\t")):
+            continue
+        if ln.startswith("github.com/thomasjungblut/go-sstables/"):
+            fn = ln.split("(")[0].rsplit("/", 1)[-1]
+            return "%s in %s" % (re.sub(r"0x[0-9a-f]+|\d+", "N", head)[:120], fn)
+        if ln.startswith("main."):
+            # the driver's own frame first: only the runtime's global deadlock report is attributed to the library (all goroutines blocked in it)
+            return re.sub(r"\d+", "N", head)[:120] if "all goroutines are asleep" in head else None
+    return re.sub(r"\d+", "N", head)[:120] if "all goroutines are asleep" in head else None
+
+
 class MachineryError(Exception):
     """Raised when the check machinery (not the code under test) failed -> exit 2."""
 
@@ -38,12 +67,16 @@ def log(*a):
     print(*a, flush=True)
 
 
+_root_lock = __import__("threading").Lock()
+
+
 def scratch_root():
     global _scratch_root
-    if _scratch_root is None:
-        base = "/dev/shm" if os.path.isdir("/dev/shm") and os.access("/dev/shm", os.W_OK) else tempfile.gettempdir()
-        _scratch_root = tempfile.mkdtemp(prefix="verif-", dir=base)
-        atexit.register(_cleanup)
+    with _root_lock:
+        if _scratch_root is None:
+            base = "/dev/shm" if os.path.isdir("/dev/shm") and os.access("/dev/shm", os.W_OK) else tempfile.gettempdir()
+            _scratch_root = tempfile.mkdtemp(prefix="verif-", dir=base)
+            atexit.register(_cleanup)
     return _scratch_root
 
 
@@ -145,10 +178,11 @@ _spec_copy = None
 def spec_dir():
     """TLC litters its working directory; run on a scratch copy of /verif/spec."""
     global _spec_copy
-    if _spec_copy is None:
-        d = os.path.join(scratch_root(), "spec")
-        shutil.copytree(SPEC, d)
-        _spec_copy = d
+    with _scratch_lock:          # parallel judges may ask for it at the same moment
+        if _spec_copy is None:
+            d = os.path.join(scratch_root(), "spec")
+            shutil.copytree(SPEC, d)
+            _spec_copy = d
     return _spec_copy
 
 
